@@ -71,10 +71,9 @@ func (s *Service) apiHandler(w http.ResponseWriter, r *http.Request) {
 		return
 	}
 
-	path := r.URL.RawPath
-	if path == "" {
-		path = r.URL.Path
-	}
+	// The encoded path: RawPath is only set when it differs from the default
+	// encoding of Path, and Path is already decoded.
+	path := r.URL.EscapedPath()
 
 	apiPath := s.cfg.APIPath
 
